@@ -30,6 +30,8 @@ from ..c18_lib import DulExec, GitExec, Scheme, World, NAME_SCHEMES
 from ..c18_run import (FIELDS, cell_pattern, diff_signature, execute, path_flags, state_flags, to_trace, transition_classes)
 
 SPEC = "WorkTreeStatusMC.tla"
+STASH_SPEC = "WorkTreeStatusStashMC.tla"
+STASH_SITE = {"StashPush": "dulwich/stash.py:Stash.push", "StashPop": "dulwich/stash.py:Stash.pop"}
 CONTENT_SCHEMES = ("text", "shared", "crlf", "binary", "linkdir")
 SCHEMES = [("plain", "shared"), ("quote", "text"), ("nonutf8", "crlf"), ("utf8", "linkdir"), ("dashdot", "binary"),
            ("plain", "linkdir"), ("nonutf8", "shared"), ("quote", "crlf"), ("utf8", "text"), ("plain", "binary")]
@@ -251,6 +253,10 @@ def run_chunk(task: dict):
                 elif c == "EditEffect":
                     site = EFFECT_SITE.get(ev["act"], "?")
                     sig_tail = sig_tail.replace("EditEffect.", f"EditEffect.{ev['act']}.", 1)
+                elif ev["act"] in STASH_SITE:
+                    # the index (entries and stat data) status reads was written by the stash operation just carried out
+                    site = STASH_SITE[ev["act"]]
+                    sig_tail += f" after={ev['act']}"
                 else:
                     site = SITE_STATUS.get(f, "dulwich/porcelain/__init__.py:status")
                 got = (ev["rep"] or {}) if c != "StatusExactNormal" else sorted(ev.get("norm") or ())
@@ -371,10 +377,10 @@ def git_opts(i: int):
     return {"checkout": ("checkout", "reset")[i % 2], "switch": ("checkout", "reset")[(i // 2) % 2], "prune": bool((i // 4) % 2), "perms": i % 3, "cfg": (i // 3) % 4, "normal": True}
 
 
-def graph_behaviours(ctx, cfg: str, name: str, budget):
+def graph_behaviours(ctx, cfg: str, name: str, budget, spec: str = SPEC, workers: int = 8):
     d = ctx.tmpdir("g")
     dot = os.path.join(d, "g.dot")
-    res = tlc.run(SPEC, cfg, workers=8, timeout=1500, dump_dot=dot, coverage=not ctx.quick)
+    res = tlc.run(spec, cfg, workers=workers, timeout=1500, dump_dot=dot, coverage=not ctx.quick)
     ctx.add_tlc(name, res)
     g = tlc.load_dot(dot)
     shutil.rmtree(d, ignore_errors=True)
@@ -637,6 +643,9 @@ def run(ctx):
     edit_behs = graph_behaviours(ctx, ctx.pick("WorkTreeStatus_edits2.cfg", "WorkTreeStatus_edits3.cfg"),
                                  ctx.pick("edits2 (3 trees, every action, 2 steps after checkout)", "edits3 (3 trees, every action, 3 steps after checkout)"),
                                  ctx.pick(None, 90000))
+    stash_behs = graph_behaviours(ctx, ctx.pick("WorkTreeStatusStash_q.cfg", "WorkTreeStatusStash_t.cfg"),
+                                  ctx.pick("stash (1 tree, edits and staging, 3 steps, then stash push / pop)", "stash (2 trees, edits, staging, unstaging, 4 steps, then stash push / pop)"),
+                                  ctx.pick(None, 30000), spec=STASH_SPEC, workers=6)
     trees, _ = f_pairs.result()
     for cfg, expect, fut in negs:
         r = fut.result()
@@ -660,13 +669,15 @@ def run(ctx):
     scratch = ctx.scratch
     tasks = []
     # 0: the specification against git, dulwich not involved (every step observed)
-    sample0 = [[dict(s, obs=True) for s in b] for b in edit_behs[::ctx.pick(14, 40)] + pair_behs[::ctx.pick(16, 10)]]
+    sample0 = [[dict(s, obs=True) for s in b] for b in edit_behs[::ctx.pick(14, 40)] + pair_behs[::ctx.pick(16, 10)] + stash_behs[::ctx.pick(8, 20)]]
     git0 = with_schemes(sample0, git_opts, SCHEMES)
     git0 += [{"gen": g, "scheme": SCHEMES[k % len(SCHEMES)], "opts": git_opts(k)} for k, g in enumerate(rand_gens[::ctx.pick(8, 12)])]
     tasks += chunked(git0, "0:spec-vs-git", "git", scratch, ctx.pick(4, 14))
     git_every = not ctx.quick
     tasks += chunked(with_schemes(edit_behs, lambda k: pick_opts(k, git_every=True), SCHEMES), "R:edits", "dulwich", scratch, ctx.pick(14, 56))
     tasks += chunked(with_schemes(pair_behs, lambda k: pick_opts(k, git_every=git_every, normal=False), SCHEMES), "R:pairs", "dulwich", scratch, ctx.pick(14, 28))
+    tasks += chunked(with_schemes(stash_behs, lambda k: dict(pick_opts(k, git_every=True), stash=("porcelain", "class")[(k // 5) % 2]), SCHEMES),
+                     "R:stash", "dulwich", scratch, ctx.pick(8, 28))
     rt = []
     for k, steps in enumerate(rt_behs):
         for m, how in enumerate(CHECKOUT_HOW):
@@ -681,7 +692,7 @@ def run(ctx):
         tasks += chunked(big, "T:large-files", "dulwich", scratch, 8, large=6_000_000)
     # longest first
     tasks.sort(key=lambda t: -t["cost"])
-    ctx.log(f"{len(tasks)} chunks on {nproc} processes: edits={len(edit_behs)} pair-chains={len(pair_behs)} roundtrip={len(rt)} random={len(rand_gens)} spec-vs-git={len(git0)}")
+    ctx.log(f"{len(tasks)} chunks on {nproc} processes: edits={len(edit_behs)} stash={len(stash_behs)} pair-chains={len(pair_behs)} roundtrip={len(rt)} random={len(rand_gens)} spec-vs-git={len(git0)}")
     mp = multiprocessing.get_context("fork")
     with mp.Pool(nproc) as pool:
         results = pool.map(run_chunk, tasks, chunksize=1)
@@ -711,6 +722,9 @@ def run(ctx):
         "(there WorkTree.stage/unstage leave an index holding both `a` and `a/x`, which git refuses to write as a tree; status is still exact for that index, so it is outside this property), "
         "where the path is not below a file or link of the directory, and for unstage where neither HEAD nor the index has a directory at the path; reset --hard where no untracked file is in the way; "
         "branch switches from a state without staged or unstaged changes",
+        "stash push / pop (porcelain.stash_push/stash_pop and Stash.push/pop; pop restores the index as `git stash pop --index`, which is what phase 0 compares with) are modelled for one stash "
+        "entry, popped on the HEAD it was made on with the tracked paths clean, where no tracked path was removed from the index or the directory and no file/directory conflict is involved; "
+        "the harness waits 20 ms before a pop so that files written by pop never share a time stamp with those written by push (racy-git, above)",
         "clauses EditEffect (unstage / rm --cached / commit / reset --mixed leave the state the specification's action leads to) and StageComplete / StageAllComplete read 'edit' in the statement as "
         "the edit git performs for the same command; the specification's version of every action is validated against git's own commands in phase 0 of every run",
         "Linux, case-sensitive file system (tmpfs)",
